@@ -471,7 +471,14 @@ func sameConstant(a, b Object) bool {
 		// Equals only compares the text: closures of different calls (func mk(n) {x => x + n}) are different values.
 		fa, oka := a.(Function)
 		fb, okb := b.(Function)
-		return oka && okb && fa.Env == fb.Env
+		if !oka || !okb || fa.Env != fb.Env {
+			return false
+		}
+		// ... nor the name, which self and printing show (func A(x){self}; A = func B(x){self}).
+		if (fa.Name == nil) != (fb.Name == nil) {
+			return false
+		}
+		return fa.Name == nil || fa.Name.Literal() == fb.Name.Literal()
 	case ARRAY:
 		ea, eb := Elements(a), Elements(b)
 		for i := range ea {
